@@ -213,6 +213,7 @@ theorem fail_contained {p : Params α} {f g : Nat → List α → Option α} {k 
     rw [this]; rfl
   have hcalls : psk.calls = k - 1 := by rw [c3, h0c]; omega
   have hnl : psk.nLocal = 0 := c6
+  have hrf : psk.refined = none := iterN_ok_refined hpreg.run
   have hiters : psk.iters = k - 1 := by rw [c1]; exact Nat.zero_add _
   have hm : psk.m ≠ none := by
     intro h
@@ -235,7 +236,7 @@ theorem fail_contained {p : Params α} {f g : Nat → List α → Option α} {k 
     rw [oneIteration_eq]
     simp only [PState.appendLog_m, PState.appendLog_calls, hms, hpr, hcalls, hfail]
     have hk1 : k - 1 + 1 = k := by omega
-    simp [PState.appendLog, hlog, hnl, hk1]
+    simp [PState.appendLog, hlog, hnl, hk1, hrf]
   rw [solve_eq, hX, (refineStep_fields (p := p) refine _).2.2.2.2.2.2.2.1]
   rfl
 
